@@ -355,13 +355,13 @@ struct StreamWorld : World {
         switch (kind) {
         case XOF: case XOFA:
             variant = (int)r.below(3);
-            if (variant) L = r.pickv({0, 1, 7, 8, 17, 32, 33, 64, 100});
+            if (variant) L = r.pickv({0, 1, 7, 8, 17, 32, 33, 64, 100, 536870911, 536870912, 536870913, 4294967296LL});
             if (variant == 2) { n1 = r.pickv({0, 1, 4, 8, 31, 32, 33, 40}); n2 = r.pickv({0, 0, 1, 7, 8, 9, 16, 23}); }
             break;
-        case PRF: variant = (int)r.below(2); if (variant) L = r.pickv({0, 1, 15, 16, 17, 32, 40}); break;
+        case PRF: variant = (int)r.below(2); if (variant) L = r.pickv({0, 1, 15, 16, 17, 32, 40, 536870911, 536870912}); break;
         case HMAC: case HMACA: n1 = r.pickv({0, 1, 16, 31, 32, 33, 63, 64, 65, 100, 200}); break;
-        case KMAC: case KMACA: n1 = r.pickv({0, 1, 8, 16, 20, 33}); n2 = r.pickv({0, 0, 1, 8, 13}); L = r.pickv({32, 32, 0, 1, 16, 31, 33, 64}); break;
-        case KDF: case KDFA: n1 = r.pickv({0, 1, 8, 16, 20, 33}); n2 = r.pickv({0, 0, 1, 8, 13}); L = r.pickv({0, 1, 16, 32, 33, 64}); break;
+        case KMAC: case KMACA: n1 = r.pickv({0, 1, 8, 16, 20, 33}); n2 = r.pickv({0, 0, 1, 8, 13}); L = r.pickv({32, 32, 0, 1, 16, 31, 33, 64, 536870912}); break;
+        case KDF: case KDFA: n1 = r.pickv({0, 1, 8, 16, 20, 33}); n2 = r.pickv({0, 0, 1, 8, 13}); L = r.pickv({0, 1, 16, 32, 33, 64, 536870911, 536870912}); break;
         case HKDF: case HKDFA: n1 = r.pickv({0, 1, 16, 32, 65}); n2 = r.pickv({0, 0, 1, 32, 64, 65, 80}); n3 = r.pickv({0, 1, 10, 32, 40}); break;
         case AE128: case AE128A: case AE80: {
             unsigned rate = kind_rate(kind);
@@ -493,7 +493,7 @@ struct StreamWorld : World {
         Params p;
         p.kind = (int)(op.u(1) % NKINDS);
         p.variant = (int)op.u(2);
-        p.L = (size_t)op.u(3) % 5000;
+        p.L = op.u(3) >= (1u << 28) ? (size_t)op.u(3) : (size_t)op.u(3) % 5000; // declared lengths around 2^29 are kept (documented switch to arbitrary-length output)
         p.n1 = (size_t)op.u(4) % 300;
         p.n2 = (size_t)op.u(5) % 300;
         p.n3 = (size_t)op.u(6) % 5000;
